@@ -331,8 +331,11 @@ OnOut(h, pkt) ==
       h0 == [Tick(Tick2(h, "C01", "C09"), "C14") EXCEPT !.wn = @ + 1, !.lastout = (pkt[1] \div 16),
                       !.sum.out = Append(@, << h.ci, ClearDup(pkt) >>),
                       !.pingOut = (pkt[1] \div 16 = PINGREQ)]
-      h1 == CheckKF(h0, d0.st = "ok", "C01", "outbound packet is not a well-formed MQTT 5 client packet",
-                    "D3", d0.st = "badflags" /\ d0.fl = 10 /\ replayed)
+      h1a == CheckKF(h0, d0.st = "ok", "C01", "outbound packet is not a well-formed MQTT 5 client packet",
+                     "D3", d0.st = "badflags" /\ d0.fl = 10 /\ replayed)
+      \* once the outbound stream is garbled nothing written later on this transport can be attributed
+      \* to a request: the other monitors stop for the rest of this run (as for D2)
+      h1 == IF d.st # "ok" /\ Len(h1a.v) > Len(h0.v) THEN [h1a EXCEPT !.taint = 2] ELSE h1a
       h2 == Check(h1, (h.wn = 0) = (pkt[1] \div 16 = CONNECT), "C01",
                   "CONNECT must be the first and only the first packet on a transport")
       \* D2: a disconnect() whose future was dropped after its DISCONNECT had reached the wire
@@ -361,7 +364,7 @@ DrainOut(h) ==
            rest == SubSeq(h.wtail, f.len + 1, Len(h.wtail))
        IN DrainOut(OnOut([h EXCEPT !.wtail = rest], pkt))
   ELSE IF f.st = "bad"
-  THEN Viol([h EXCEPT !.wtail = << >>], "C01", "outbound byte stream cannot be framed")
+  THEN Viol([h EXCEPT !.wtail = << >>, !.taint = 2], "C01", "outbound byte stream cannot be framed")
   ELSE h
 
 ---------------------------------------------------------------------------
@@ -424,7 +427,11 @@ InConnack(h, d) ==
             hasaci |-> HasProp(P, 18), aci |-> IF HasProp(P, 18) THEN FirstProp(P, 18).s ELSE << >>,
             propsok |-> propsok]
       fresh == d.rc < 128 /\ d.sp = 0
+      \* C06: exchanges past PUBREC that wait for PUBCOMP stay unresolved on a resumed connection
+      \* although their PUBLISH is not sent again
+      waiting == {h.reqs[k].id : k \in {j \in 1..Len(h.reqs) : InFlight(h, j) /\ h.reqs[j].ph = "rec"}}
   IN [h EXCEPT !.ack = a,
+               !.unres = IF d.rc < 128 /\ d.sp = 1 THEN waiting ELSE {},
                !.epoch = IF fresh THEN @ + 1 ELSE @,
                !.owed = IF fresh THEN << >> ELSE @, !.aw = IF fresh THEN 0 ELSE @,
                !.sids = IF fresh THEN {} ELSE @]
